@@ -57,25 +57,47 @@ pub enum Mode {
     C32,
 }
 
+/// a valid mesh parameter set (outbound_min, n_low, n, n_high): outbound_min <= n_low <= n <= n_high,
+/// 2*outbound_min <= n; n_low 1..3, n 2..4, n_high 3..6
+fn mesh_params() -> impl Strategy<Value = (usize, usize, usize, usize)> {
+    (1usize..=3, 0usize..=2, 0usize..=3).prop_map(|(lo, dn, dh)| {
+        let n = (lo + dn).max(2).min(4).max(lo);
+        let n_high = (n + dh).max(3).min(6).max(n);
+        let outbound_min = if lo >= 2 && n >= 4 { 2.min(lo) } else if n >= 2 { 1.min(lo) } else { 0 };
+        (outbound_min.min(n / 2), lo, n, n_high)
+    })
+}
+
 fn cfg_strategy(backoff_max: u64) -> impl Strategy<Value = NodeCfg> {
-    (1usize..=3, 0usize..=2, 0usize..=3, 1u64..=backoff_max, 1u64..=5, 0u32..=2, any::<bool>(), prop::bool::weighted(0.7), prop_oneof![Just(60u64), Just(2u64), Just(1u64)])
-        .prop_map(|(lo, dn, dh, pb, ub, slack, flood, scoring, opp)| {
-            let n = (lo + dn).max(2).min(4).max(lo);
-            let n_high = (n + dh).max(3).min(6).max(n);
-            let outbound_min = if lo >= 2 && n >= 4 { 2.min(lo) } else if n >= 2 { 1.min(lo) } else { 0 };
-            NodeCfg {
-                outbound_min: outbound_min.min(n / 2),
-                n_low: lo,
-                n,
-                n_high,
-                prune_backoff_s: pb,
-                unsub_backoff_s: ub,
-                backoff_slack: slack,
-                flood_publish: flood,
-                scoring,
-                fanout_ttl_s: 60,
-                opportunistic_ticks: opp,
-            }
+    (
+        mesh_params(),
+        // every topic gets its own mesh parameter set with probability 0.4 (ConfigBuilder::mesh_*_for_topic)
+        prop::collection::vec(prop::option::weighted(0.4, mesh_params()), NT as usize),
+        1u64..=backoff_max,
+        1u64..=5,
+        0u32..=2,
+        any::<bool>(),
+        prop::bool::weighted(0.7),
+        prop_oneof![Just(60u64), Just(2u64), Just(1u64)],
+    )
+        .prop_map(|((outbound_min, n_low, n, n_high), per_topic, pb, ub, slack, flood, scoring, opp)| NodeCfg {
+            outbound_min,
+            n_low,
+            n,
+            n_high,
+            prune_backoff_s: pb,
+            unsub_backoff_s: ub,
+            backoff_slack: slack,
+            flood_publish: flood,
+            scoring,
+            fanout_ttl_s: 60,
+            opportunistic_ticks: opp,
+            topic_mesh: per_topic
+                .into_iter()
+                .enumerate()
+                .filter_map(|(t, m)| m.map(|(outbound_min, n_low, n, n_high)| TopicMesh { topic: t as u8, outbound_min, n_low, n, n_high }))
+                .collect(),
+            validate_messages: false,
         })
 }
 
@@ -139,6 +161,14 @@ struct Model {
 
 pub struct Stats {
     pub graft_rejected_high: u32,
+    /// ... of which: the topic has its own mesh_n_high and the mesh was still below the default mesh_n_high
+    pub graft_rejected_topic_high_below_default: u32,
+    /// a GRAFT was accepted into a mesh that already had >= default mesh_n_high members (topic bound is higher)
+    pub graft_accepted_above_default_high: u32,
+    /// a heartbeat changed the mesh of a topic that has its own mesh parameter set
+    pub hb_changed_topic_cfg_mesh: u32,
+    /// a peer left one mesh, stayed in another, and is subscribed to a topic the node is not subscribed to
+    pub left_one_mesh_stays_in_other_foreign_topic: u32,
     pub graft_rejected_backoff: u32,
     pub graft_rejected_score: u32,
     pub graft_accepted: u32,
@@ -170,6 +200,10 @@ pub fn run_case(case: &Case, mode: Mode) -> Result<Stats, Outcome> {
     let mut model = Model { explicit: BTreeSet::new(), backoff: BTreeMap::new(), app_score: BTreeMap::new(), next_conn: 1, tainted: BTreeSet::new() };
     let mut stats = Stats {
         graft_rejected_high: 0,
+        graft_rejected_topic_high_below_default: 0,
+        graft_accepted_above_default_high: 0,
+        hb_changed_topic_cfg_mesh: 0,
+        left_one_mesh_stays_in_other_foreign_topic: 0,
         graft_rejected_backoff: 0,
         graft_rejected_score: 0,
         graft_accepted: 0,
@@ -365,6 +399,19 @@ pub fn run_case(case: &Case, mode: Mode) -> Result<Stats, Outcome> {
         }
         if is_heartbeat && changed_any {
             stats.hb_changed_mesh += 1;
+            if (0..NT).any(|t| case.cfg.has_topic_mesh(t) && mesh_after[t as usize] != mesh_before[t as usize]) {
+                stats.hb_changed_topic_cfg_mesh += 1;
+            }
+        }
+        // a peer left one mesh but stays in another while being subscribed to a topic the node has no
+        // mesh for (the "is the peer in any other mesh" scan has to skip that topic)
+        for (i, (_, l)) in &per_peer_changes {
+            if *l >= 1 && mesh_after.iter().any(|m| m.contains(&pool[*i])) {
+                let foreign = node.gs.all_peers().find(|(p, _)| **p == pool[*i]).map(|(_, ts)| ts.into_iter().any(|t| !node.subscribed(t))).unwrap_or(false);
+                if foreign {
+                    stats.left_one_mesh_stays_in_other_foreign_topic += 1;
+                }
+            }
         }
         for (j, l) in per_peer_changes.values() {
             if j + l >= 2 {
@@ -441,7 +488,9 @@ pub fn run_case(case: &Case, mode: Mode) -> Result<Stats, Outcome> {
             }
             let accepted = mesh_after[tu].contains(p);
             let pruned = emitted.get(i).map(|s| s.prunes.iter().any(|(n, _)| n == &topic_name(*t))).unwrap_or(false);
-            let at_high = mesh_before[tu].len() >= case.cfg.n_high;
+            // the bound in force for *this* topic (its own mesh parameter set, else the default one)
+            let n_high = case.cfg.mesh_for(*t).n_high;
+            let at_high = mesh_before[tu].len() >= n_high;
             let backed_off = backoff_before.get(&(*t, *i)).map(|e| *e > now).unwrap_or(false);
             let negative = score_before[*i].map(|s| s < 0.0).unwrap_or(false);
             let explicit = explicit_before.contains(i);
@@ -449,16 +498,25 @@ pub fn run_case(case: &Case, mode: Mode) -> Result<Stats, Outcome> {
             let gossipsub = case.kinds[*i] >= 2;
             if accepted {
                 stats.graft_accepted += 1;
+                if case.cfg.has_topic_mesh(*t) && mesh_before[tu].len() >= case.cfg.n_high {
+                    stats.graft_accepted_above_default_high += 1;
+                }
             } else if backed_off {
                 stats.graft_rejected_backoff += 1;
             } else if negative {
                 stats.graft_rejected_score += 1;
             } else if at_high {
                 stats.graft_rejected_high += 1;
+                if case.cfg.has_topic_mesh(*t) && mesh_before[tu].len() < case.cfg.n_high {
+                    stats.graft_rejected_topic_high_below_default += 1;
+                }
             }
             if mode == Mode::C28 && at_high {
                 if accepted {
-                    return Err(Outcome::fail("C28:graft-accepted-at-mesh-n-high", ctx(json!({"topic": t, "peer": short(p), "n_high": case.cfg.n_high}))));
+                    return Err(Outcome::fail(
+                        "C28:graft-accepted-at-mesh-n-high",
+                        ctx(json!({"topic": t, "peer": short(p), "n_high": n_high, "default_n_high": case.cfg.n_high, "topic_has_own_mesh_params": case.cfg.has_topic_mesh(*t)})),
+                    ));
                 }
                 if !explicit && gossipsub && !pruned {
                     return Err(Outcome::fail("C28:refused-graft-without-prune", ctx(json!({"topic": t, "peer": short(p), "n_high": case.cfg.n_high}))));
